@@ -123,6 +123,8 @@ type Cluster struct {
 	// MissingKeyspaces makes `USE ks` fail with an Invalid error.
 	MissingKeyspaces map[string]bool
 	OnConnect        func(c *Conn)
+	// OptionsHandler may override the answer to OPTIONS (heart-beats).
+	OptionsHandler func(c *Conn, header *frame.Header) (Response, bool)
 	// AfterRegister runs right after a REGISTER was acknowledged (an event can follow immediately).
 	AfterRegister func(c *Conn)
 	// SystemHandler may override the answer to the proxy's topology queries (broken backends).
@@ -411,6 +413,12 @@ func (c *Conn) handle(rawHdr, rawBody []byte) {
 	if frm != nil {
 		switch m := frm.Body.Message.(type) {
 		case *message.Options:
+			if cl.OptionsHandler != nil {
+				if r, ok := cl.OptionsHandler(c, header); ok {
+					c.respond(header, r)
+					return
+				}
+			}
 			_ = c.Send(header.Version, header.StreamId, &message.Supported{Options: map[string][]string{
 				"CQL_VERSION": {"3.4.5"}, "COMPRESSION": {"lz4", "snappy"}}})
 			return
